@@ -92,4 +92,5 @@ Unchanged tree before the fix phase: exit 0, 13/13, 613-617 cases, 0 disagreemen
 Measured quick wall times 243 s .. 854 s for 2-4 CPU-min per run (shared lake lock); harness alone ~14 s.
 Thorough tier: exit 0, 13/13 incl. leanchecker, 6,757 cases (2,500 real passes over layouts), 0 disagreements, oracle
 failures only in the two listed classes; 16 min 33 s wall for 4.4 CPU-min (shared lake lock).
+Quiet machine (load < 30), after the fix phase: quick 24 s warm / 75 s with cold builds; thorough (6,761 cases, 2,500 real passes) 34 s.
 """
